@@ -279,6 +279,8 @@ Theorem C12_source_tie :
   /\ (gen_pull_order_get_data = m_pull_order_get_data /\ gen_pull_order_reduce = m_pull_order_reduce
       /\ gen_pull_order_field = m_pull_order_field /\ gen_pull_order_zip = m_pull_order_zip)
   /\ gen_ms_table_is_one_chunk_stream = m_ms_table_is_one_chunk_stream
+  /\ (gen_borders_compare_neighbouring_rows = m_borders_compare_neighbouring_rows
+      /\ gen_with_ignored_added_is_functional = m_with_ignored_added_is_functional)
   /\ genome_trace_head = genome_trace (negb m_order_drops_underscore_names) m_walk_checks_before_yield
   /\ (forall order gs, synched_head order gs
         = if m_sync_checks_before_yield then synched_ahead bname zlist_eqb ids [] order gs
@@ -291,7 +293,7 @@ Proof.
           (conj (b_lj_final_ok a) (b_change_at a)))))))))))))
          (conj b_fast_path (conj b_order_drops_underscore_names (conj b_walk_checks_before_yield
          (conj b_sync_checks_before_yield (conj b_change_offsets (conj b_join_key_and_payload_index
-         (conj b_get_data_names_first (conj b_pull_machine (conj b_pull_orders (conj b_ms_table_is_one_chunk_stream s_switches))))))))))).
+         (conj b_get_data_names_first (conj b_pull_machine (conj b_pull_orders (conj b_ms_table_is_one_chunk_stream (conj b_borders_and_deriving s_switches)))))))))))).
 Qed.
 Print Assumptions C12_source_tie.
 
